@@ -56,6 +56,12 @@ class MboxMixin(object):
         present = bool(mb_find(st.after, cm.app, mid))
         if created and present:
             self.mb[key] = m
+        if not present and err is None:
+            # C06: the open went through but this app has no such mailbox: it was attached to another app's
+            foreign = [r["app_id"] for r in st.after["mailboxes"].values() if r["id"] == mid and r["app_id"] != cm.app]
+            if foreign:
+                self.flag({"C06", "C05"}, "open of an id stored under another app was attached to that app's mailbox", st,
+                          {"mailbox": mid, "conn_app": cm.app, "stored_under": foreign})
         msgs_fr = [(i, f) for i, (c, f) in enumerate(st.frames) if c == st.conn and f.get("type") == "message"]
         if idx >= 2:
             self.ev["c05_third_open"] += 1
